@@ -172,6 +172,12 @@ const INSTR: u16 = 0x0100;
 
 /// Every argument width x transform kind, instructions, nesting, flags that must be carried over.
 pub fn shapes_font(long: bool, style: u8) -> Tables {
+    build_tt(&shapes_glyphs(), long, 9, style, &[])
+}
+
+/// The glyph records of `shapes_font`. A composite only refers to earlier glyphs, so every prefix of at least three
+/// glyphs is a closed glyph set (the members of the synthesized collections are such prefixes).
+pub fn shapes_glyphs() -> Vec<GlyphRec> {
     let mut g = base_glyphs();
     let add = |g: &mut Vec<GlyphRec>, comps: &[(u16, u16, i32, i32, &[i16])], instr: &[u8]| {
         let c = composite(comps, instr, g);
@@ -192,7 +198,7 @@ pub fn shapes_font(long: bool, style: u8) -> Tables {
     add(&mut g, &[(XY, 14, 1, 1, &[])], &[]); // 15
     add(&mut g, &[(XY | INSTR, 1, 3, 3, &[])], &[]); // 16 WE_HAVE_INSTRUCTIONS with an empty instruction block
     add(&mut g, &[(XY | INSTR, 1, 3, 3, &[]), (XY, 2, 4, 4, &[])], &[0x42, 0x43]); // 17 the flag on a component that is not the last
-    build_tt(&g, long, 9, style, &[])
+    g
 }
 
 // ---- variable font --------------------------------------------------------------------------------
